@@ -8,7 +8,7 @@ from vlib.workers import WorkerDied, WorkerSet
 PROPERTY = "C15"
 LEVEL = "exploration"
 INTERPS = ["3.12"]
-RULE = ("Greenlet parent chains of 1..5 greenlets (each the child of the previous) with call depth 0..4 inside each, plus an "
+RULE = ("(Half of the chains are made of greenlet subclasses that define a truth value of their own, always false / always true.) Greenlet parent chains of 1..5 greenlets (each the child of the previous) with call depth 0..4 inside each, plus an "
         "unrelated suspended greenlet, an unstarted and a dead one; every greenlet is extracted from the main greenlet, from "
         "inside itself (current), from its child, from a deeper descendant and from the unrelated greenlet's point of view; a "
         "greenlet running in another thread. Oracle: a shadow call log per greenlet - suspended: exactly its own frames from "
@@ -30,6 +30,8 @@ def chains():
         "chain": st.lists(st.integers(0, 4), min_size=1, max_size=5),
         "sibling": st.sampled_from([0, 1, 2, 4]),
         "inside": st.just(True),
+        # greenlet subclasses whose __bool__ says something else than "started and not finished"
+        "glet_class": st.sampled_from(["plain", "plain", "falsy", "truthy"]),
     })
 
 
@@ -63,6 +65,13 @@ def shard(arg):
             v = check(ws, {"op": "green.greenback", "depth": depth}, out, case, depth >= 2, ["greenback", "greenback.depth.%d" % depth])
             if v:
                 out.violation(v[0]["desc"], case, "3.12", obs=v[0].get("obs"))
+            if depth == 0:
+                # a blocked task that is GIVEN its portal from outside (bestow_portal) and looked at before its next step
+                case = {"greenback_depth": 0, "portal": "bestow"}
+                v = check(ws, {"op": "green.greenback", "depth": 0, "portal": "bestow"}, out, case, True,
+                          ["greenback", "greenback.portal.bestow"])
+                if v:
+                    out.violation(v[0]["desc"], case, "3.12", obs=v[0].get("obs"))
             for portal in ("run", "run_sync"):
                 # how the task got its portal: ensure_portal() (above), with_portal_run(async fn), with_portal_run_sync(fn)
                 case = {"greenback_depth": depth, "portal": portal}
